@@ -393,23 +393,78 @@ class MainModel:
             return d["name"], not neg
         return None
 
-    def case_split(self):
-        """[(assumption {var: bool}, pruned CFG)] over all truth assignments of the null-invariant classes"""
+    def sign_variables(self, cap=2):
+        """const integer locals of main that are compared with the literal 0 in at least two branch conditions: along one run such a
+        variable has one sign, so branches on it are correlated (`if (r > 0) refresh(); ... if (r > 0) use();`)"""
+        decls = {}
+        for x in A.walk(self.fn["body"]):
+            if x["k"] == "DeclStmt":
+                for d in x["decls"]:
+                    if d.get("k") == "VarDecl" and d.get("is_const") and (d.get("ctype") or "").replace("const ", "").strip() in \
+                            ("int", "unsigned int", "long", "unsigned long", "short", "unsigned short", "long long", "unsigned long long"):
+                        decls[d["decl"]] = d["name"]
+        uses = {}
+        for x in A.walk(self.fn["body"]):
+            if x["k"] in ("IfStmt", "WhileStmt", "ForStmt", "ConditionalOperator") and isinstance(x.get("cond"), dict):
+                for y in A.walk(x["cond"]):
+                    t = self.sign_test(y)
+                    if t is not None and t[0] in decls:
+                        uses.setdefault(t[0], set()).add(x["id"])
+        return [(d_, decls[d_]) for d_, ids in sorted(uses.items(), key=lambda kv: -len(kv[1])) if len(ids) >= 2][:cap]
+
+    @staticmethod
+    def sign_test(c):
+        """(decl, op) for `v op 0` / `0 op v` (op normalised to v on the left), else None"""
+        c = A.strip(c)
+        if c.get("k") != "BinaryOperator" or c.get("op") not in ("<", "<=", ">", ">=", "==", "!="):
+            return None
+        l, r = A.strip(c["c"][0]), A.strip(c["c"][1])
+        flip = {"<": ">", "<=": ">=", ">": "<", ">=": "<=", "==": "==", "!=": "!="}
+        for a_, b_, op in ((l, r, c["op"]), (r, l, flip[c["op"]])):
+            if b_.get("k") == "IntegerLiteral" and b_.get("value") == 0:
+                d = A.declref(a_)
+                if d is not None and d.get("local"):
+                    return d["decl"], op
+        return None
+
+    def case_split(self, refine=False):
+        """[(assumption {var: bool}, pruned CFG)] over all truth assignments of the null-invariant classes; with refine=True additionally
+        over the sign (-1, 0, +1) of the const integers of sign_variables().  Branch conditions are evaluated three-valued through
+        !, && and ||, so `wkm != nullptr || x` is true under the assumption that wkm is non-null."""
         import itertools
         classes = self.null_invariants()
+        signs = self.sign_variables() if refine else []
         out = []
         for bits in itertools.product([True, False], repeat=len(classes)):
-            asg = {}
-            for cl, b in zip(classes, bits):
-                for v in cl:
-                    asg[v] = b
+            for sg in itertools.product([-1, 0, 1], repeat=len(signs)):
+                asg = {}
+                for cl, b in zip(classes, bits):
+                    for v in cl:
+                        asg[v] = b
+                sgn = {d_: s_ for (d_, nm_), s_ in zip(signs, sg)}
+                label = dict(asg)
+                for (d_, nm_), s_ in zip(signs, sg):
+                    label["sign(%s)" % nm_] = s_
 
-            def decide(cond, asg=asg):
-                t = self.null_test(cond)
-                if t is None or t[0] not in asg:
+                def decide(cond, asg=asg, sgn=sgn):
+                    c = A.strip(cond)
+                    if c.get("k") == "UnaryOperator" and c.get("op") == "!":
+                        v = decide(c["c"][0])
+                        return None if v is None else (not v)
+                    if c.get("k") == "BinaryOperator" and c.get("op") in ("&&", "||"):
+                        a_, b_ = decide(c["c"][0]), decide(c["c"][1])
+                        if c["op"] == "&&":
+                            return False if (a_ is False or b_ is False) else (True if (a_ is True and b_ is True) else None)
+                        return True if (a_ is True or b_ is True) else (False if (a_ is False and b_ is False) else None)
+                    t = self.null_test(c)
+                    if t is not None and t[0] in asg:
+                        return asg[t[0]] == t[1]
+                    st = self.sign_test(c)
+                    if st is not None and st[0] in sgn:
+                        s_ = sgn[st[0]]
+                        return {"<": s_ < 0, "<=": s_ <= 0, ">": s_ > 0, ">=": s_ >= 0, "==": s_ == 0, "!=": s_ != 0}[st[1]]
                     return None
-                return asg[t[0]] == t[1]
-            out.append((asg, self.cfg.pruned(decide)))
+                out.append((label, self.cfg.pruned(decide)))
         return out
 
 
